@@ -282,9 +282,16 @@ int main(int argc, char *argv[])
             }
             if (!res) continue;
 
+            // A socket with FD frames enabled also delivers the classic frames
+            // of the bus (as short reads): those stay classic frames
+            int classic_frame = (res == CAN_MTU);
+
             uint8_t* acf_pdu = pdu + pdu_length;
             res = prepare_acf_packet(acf_pdu, can_frame);
             if (res < 0) goto err;
+            if (classic_frame) {
+                Avtp_Can_SetField((Avtp_Can_t*)acf_pdu, AVTP_CAN_FIELD_FDF, 0U);
+            }
             pdu_length += res;
             cf_length += res;
             i++;
